@@ -135,11 +135,11 @@ def enum_loop(kind, blocking, depth, buflen=4, payload="a1b2c3d4"):
     return out
 
 
-def call_line(kind, slot, buflen=4, payload="a1b2c3d4", fam=2, newslot=1):
+def call_line(kind, slot, buflen=4, payload="a1b2c3d4", fam=2, newslot=1, want=1):
     if kind == "recv":
         return "recv %d %d" % (slot, buflen)
     if kind == "recvfrom":
-        return "recvfrom %d %d 1" % (slot, buflen)
+        return "recvfrom %d %d %d" % (slot, buflen, want)
     if kind == "send":
         return "send %d %s" % (slot, payload[:2 * buflen])
     if kind == "sendto":
@@ -223,6 +223,128 @@ def eintr_kth_cases(kmax=6):
         yield "c19/wait", mk_socket(0) + [sysl("poll", ei)] * k + [sysl("poll", 1), "wait 0 2"]
 
 
+# ---- directed input classes that the random generators never (or almost never) reach
+
+ERRNOS = list(range(0, 134)) + [255, 512, 9999, 2**31 - 1]
+SIZES_EDGE = [0, 1, 2**31 - 1, 2**31, 2**32 - 1, 2**32, 2**32 + 1]
+
+
+def errno_sweep_cases():
+    """every errno value 0..133 (and a few beyond the table) as the result of the data call, of the wait's poll and of
+    the second data call after one would-block round: which native codes are retried, which are reported, for each
+    call kind and mode.  ("fails for a real reason": only EINTR and EAGAIN may be swallowed.)"""
+    for kind in ("recv", "recvfrom", "send", "sendto", "accept", "connect"):
+        typ, proto = (2, 17) if kind in ("recvfrom", "sendto") else (1, 6)
+        good = data_alpha(kind, 4, "a1b2c3d4")[0]
+        for mname, blocking, timeout in MODES[:3]:
+            for e in ERRNOS:
+                pre = [sysl("poll", 1)] if (blocking and kind != "connect") else []
+                sc = pre + [sysl(kind, "e%d" % e)]
+                # what a retry would consume (the script left over is reported by `left=`)
+                sc2 = sc + pre + [sysl(kind, good[0], **good[1])]
+                if kind == "connect":
+                    tails = [[sysl("poll", 1), sysl("getsockopt", 0, v=0)]] if blocking else [[]]
+                    for tl in tails:
+                        yield "errno/%s/%s" % (kind, mname), mk_socket(0, 2, typ, proto, 5, blocking, timeout) + sc + tl + [call_line(kind, 0)]
+                    continue
+                yield "errno/%s/%s" % (kind, mname), mk_socket(0, 2, typ, proto, 5, blocking, timeout) + sc2 + tail_for(kind, sc2) + [call_line(kind, 0)]
+        for e in ERRNOS:          # the wait itself
+            yield "errno/poll@" + kind, mk_socket(0, 2, typ, proto, 5, True, 50) + [sysl("poll", "e%d" % e), sysl("poll", 1)] + \
+                [sysl(kind, good[0], **good[1])] + tail_for(kind, [sysl(kind, good[0], **good[1])]) + [call_line(kind, 0)]
+    for e in ERRNOS:
+        yield "errno/wait", mk_socket(0) + [sysl("poll", "e%d" % e), sysl("poll", 1), "wait 0 1"]
+        yield "errno/chk", mk_socket(0) + [sysl("getsockopt", 0, v=e), "chk 0"]
+        yield "errno/connect-soerror", mk_socket(0) + [sysl("connect", "e%d" % E.EINPROGRESS), sysl("poll", 1), sysl("getsockopt", 0, v=e), call_line("connect", 0)]
+
+
+def argument_cases():
+    """legal-but-unusual and documented-invalid arguments of every entry point: NULL buffer / address / result pointer,
+    length 0 (an empty datagram is a legal datagram; a zero-length receive is a legal receive), lengths around 2^31 and
+    2^32, pboolean arguments other than 0/1, descriptor 0, time-outs at the ends of the int range, a NULL socket, and the
+    same on a closed socket (the closed check comes after the argument check)"""
+    for mname, blocking, timeout in MODES:
+        for state in ("open", "closed"):
+            def sock(typ=1, proto=6):
+                ops = mk_socket(0, 2, typ, proto, 5, blocking, timeout)
+                return ops + ([sysl("close", 0), "close 0"] if state == "closed" else [])
+            w = [sysl("poll", 1)] if blocking else []
+            lab = "args/%s/%s" % (mname, state)
+            # receive_from without an address result pointer / with one; datagram longer, equal, shorter than the buffer; empty datagram
+            for want in (0, 1):
+                for n, d in ((4, "a1b2c3d4"), (2, "a1b2"), (4, "a1b2c3d4e5f6"), (0, "-")):
+                    yield lab, sock(2, 17) + w + [sysl("recvfrom", n, d=d, sa=SA4)] + ([sysl("fromnative", 1)] if want else []) + ["recvfrom 0 4 %d" % want]
+                yield lab, sock(2, 17) + w + [sysl("recvfrom", 4, d="a1b2c3d4", sa=SA4), sysl("fromnative", 1), "recvfrom 0 0 %d" % want]
+                yield lab, sock(2, 17) + w + [sysl("recvfrom", 4, d="a1b2c3d4", sa=SA4), sysl("fromnative", 1), "recvfrom 0 4 %d null" % want]
+                yield lab, sock(2, 17) + w + [sysl("recvfrom", 4, d="a1b2c3d4", sa=SA6), sysl("fromnative", 1), "recvfrom 0 9 %d" % want]
+                yield lab, sock(2, 17) + w + [sysl("recvfrom", 4, d="a1b2c3d4", sa="-"), sysl("fromnative", 0), "recvfrom 0 9 %d" % want]
+            # receive: NULL buffer, length 0, edge lengths
+            yield lab, sock() + w + [sysl("recv", 0, d="-"), "recv 0 0"]
+            yield lab, sock() + w + [sysl("recv", 4, d="a1b2c3d4"), "recv 0 4 null"]
+            yield lab, sock() + w + [sysl("recv", 4, d="a1b2c3d4"), "recv 0 0 null"]
+            for n in SIZES_EDGE:
+                yield lab, sock() + w + [sysl("recv", 3, d="a1b2c3"), "recv 0 %d" % n]
+                yield lab, sock() + w + [sysl("send", 3), "send 0 a1b2c3d4 %d" % n]
+                yield lab, sock(2, 17) + w + [sysl("sendto", 3), "sendto 0 %s a1b2c3d4 %d" % (SA4, n)]
+                yield lab, sock(2, 17) + w + [sysl("recvfrom", 3, d="a1b2c3", sa=SA4), sysl("fromnative", 1), "recvfrom 0 %d 1" % n]
+            # send / send_to: empty payload, NULL buffer, NULL address
+            yield lab, sock() + w + [sysl("send", 0), "send 0 - 0"]
+            yield lab, sock() + w + [sysl("send", 0), "send 0 -"]
+            yield lab, sock() + w + [sysl("send", 1), "send 0 null 4"]
+            yield lab, sock() + w + [sysl("send", 1), "send 0 null 0"]
+            yield lab, sock(2, 17) + w + [sysl("sendto", 0), "sendto 0 %s -" % SA4]           # the empty datagram
+            yield lab, sock(2, 17) + w + [sysl("sendto", 0), "sendto 0 %s a1b2 0" % SA6]
+            yield lab, sock(2, 17) + w + [sysl("sendto", 2), "sendto 0 null a1b2"]
+            yield lab, sock(2, 17) + w + [sysl("sendto", 2), "sendto 0 %s null 2" % SA4]
+            yield lab, sock(2, 17) + w + [sysl("sendto", 2), "sendto 0 null null 0"]
+            yield lab, sock() + [sysl("connect", 0), "connect 0 null"]
+            yield lab, sock() + [sysl("setsockopt", 0), sysl("setsockopt", 0), sysl("bind", 0), "bind 0 null 1"]
+            # pboolean arguments that are neither 0 nor 1
+            for v in (2, -1, 256, 2**31 - 1, -2**31):
+                yield lab, sock() + ["setblk 0 %d" % v, "setblk 0 0", "setblk 0 %d" % v] + [sysl("poll", 0), "recv 0 4"]
+                yield lab, sock() + [sysl("setsockopt", 0), "setka 0 %d" % v, sysl("setsockopt", 0), "setka 0 %d" % v, sysl("setsockopt", 0), "setka 0 0",
+                                     sysl("setsockopt", "e%d" % E.EINVAL), "setka 0 %d" % v]
+                yield lab, sock(2, 17) + [sysl("setsockopt", 0), sysl("setsockopt", 0), sysl("bind", 0), "bind 0 %s %d" % (SA4, v)]
+            # time-outs at the ends of the int range, then a wait
+            for t in (1, -1, 2**31 - 1, -2**31, -2**31 + 1, 2**31 - 2, 65535, 65536, 2**16 + 2**15):
+                yield lab, sock() + ["setto 0 %d" % t, sysl("poll", 0), "wait 0 1", "setblk 0 1"] + [sysl("poll", 0), "recv 0 4"]
+            for b in (0, -1, 2**31 - 1, -2**31, 128, 4096):
+                yield lab, sock() + ["setbl 0 %d" % b, sysl("listen", 0), "listen 0", "setbl 0 7"]
+            for c in (1, 2):
+                for x in (8, 16, 24, 32, 0, 1, 4, 5, 2):     # revents exactly: POLLERR / POLLHUP alone (no POLLIN / POLLOUT), POLLNVAL, nothing
+                    yield lab, sock() + [sysl("poll", 1, x=x), "wait 0 %d" % c]
+                    yield lab, sock(2, 17) + ([sysl("poll", 1, x=x)] if blocking else []) + [sysl("recvfrom", "e%d" % E.ECONNREFUSED), "recvfrom 0 8 0"]
+                    yield lab, sock() + ([sysl("poll", 1, x=x)] if blocking else []) + [sysl("send", "e%d" % E.EPIPE), "send 0 a1b2"]
+                    yield lab, sock() + ([sysl("poll", 1, x=x)] if blocking else []) + [sysl("recv", 2, d="a1b2"), "recv 0 8"]
+    # descriptor 0 is a descriptor
+    for fd in (0, 1, 2, 1023, 1024, 4095):          # (the harness tracks close-on-exec for descriptors below 4096)
+        yield "args/fd", t_new(fd) + ["new 0 2 1 6", sysl("poll", 1), sysl("recv", 1, d="aa"), "recv 0 4", sysl("close", 0), "close 0"]
+        yield "args/fd", t_new(fd, 0) + ["new 0 10 2 17", sysl("close", 0), "free 0"]
+        yield "args/fd", t_newfd() + ["newfd 0 %d" % fd, sysl("poll", 1), sysl("send", 1), "send 0 aa", sysl("close", 0), "free 0"]
+        yield "args/fd", mk_socket(0) + [sysl("listen", 0), "listen 0", sysl("poll", 1), sysl("accept", fd)] + t_accept_tail(fd) + ["accept 0 1", sysl("close", 0), "close 1"]
+        yield "args/fd", mk_socket(0) + [sysl("listen", 0), "listen 0", sysl("poll", 1), sysl("accept", fd)] + t_accept_tail(fd, getfd=1) + ["accept 0 1"]
+    for fd in (-1, -2, -2**31):
+        yield "args/fd", t_newfd() + ["newfd 0 %d" % fd]
+    # a NULL socket (empty slot) at every entry point, and every getter on it
+    null_ops = ["recv 3 4", "recv 3 4 null", "recvfrom 3 4 1", "recvfrom 3 4 0", "send 3 a1b2", "send 3 null 2", "sendto 3 %s a1b2" % SA4, "sendto 3 null a1b2",
+                "accept 3 2", "connect 3 " + SA4, "connect 3 null", "bind 3 %s 1" % SA4, "bind 3 null 0", "listen 3", "close 3", "shutdown 3 1 1", "shutdown 3 0 0",
+                "setbuf 3 1 1024", "wait 3 1", "wait 3 2", "chk 3", "setka 3 1", "setblk 3 0", "setbl 3 9", "setto 3 50", "local 3", "remote 3", "free 3"]
+    yield "args/null-socket", list(null_ops)
+    for o in null_ops:
+        yield "args/null-socket", [o]
+    # every call after close, on a socket that was connected / listening (closed_is_dead for each entry point, no native call)
+    for typ, proto in ((1, 6), (2, 17)):
+        base = mk_socket(0, 2, typ, proto, 5) + [sysl("connect", 0), "connect 0 " + SA4, "setto 0 30", sysl("setsockopt", 0), "setka 0 1", sysl("close", 0), "close 0"]
+        for o in [x.replace(" 3", " 0", 1) for x in null_ops if not x.startswith("free")] + ["close 0", "setbl 0 3", "setto 0 -5"]:
+            yield "args/after-close", base + [o, "close 0", sysl("close", 0), "free 0"]
+
+
+def special_cases():
+    out = []
+    for lab, ops in itertools.chain(errno_sweep_cases(), argument_cases()):
+        out.append((lab, ops))
+    return out
+
+
 # ---- structured long scripts: k EINTRs / EAGAIN bursts / short transfers in all positions
 
 def structured_loop(rng, kind, blocking, buflen, payload):
@@ -236,7 +358,7 @@ def structured_loop(rng, kind, blocking, buflen, payload):
                 sc.append(sysl("poll", ei))
             if c < 0.25:
                 continue
-            sc.append(sysl("poll", 1))
+            sc.append(sysl("poll", 1, **({"x": rng.choice([8, 16, 24, 0])} if rng.random() < 0.1 else {})))
         sc.append(sysl(kind, ei if (c < 0.6 or not blocking or kind == "connect") else ea))
     end = rng.random()
     if blocking and kind != "connect":
@@ -287,6 +409,19 @@ def structured_loop(rng, kind, blocking, buflen, payload):
     return sc
 
 
+def odd_argument_call(rng, kind, slot, payload, fam):
+    """NULL buffer / NULL address / length 0 forms of the four data calls"""
+    sa = ADDRS[fam][0]
+    if kind == "recv":
+        return rng.choice(["recv %d 0", "recv %d 4 null", "recv %d 0 null"]) % slot
+    if kind == "recvfrom":
+        return rng.choice(["recvfrom %d 0 1", "recvfrom %d 0 0", "recvfrom %d 4 1 null", "recvfrom %d 4 0 null"]) % slot
+    if kind == "send":
+        return rng.choice(["send %d - 0", "send %d null 4", "send %d null 0", "send %d " + payload + " 0"]) % slot
+    return rng.choice(["sendto %d " + sa + " -", "sendto %d " + sa + " " + payload + " 0", "sendto %d null " + payload, "sendto %d " + sa + " null 4",
+                       "sendto %d null null 0"]) % slot
+
+
 def structured_case(rng, chk=None):
     kind = rng.choice(["recv", "recvfrom", "send", "sendto", "accept", "connect", "wait"])
     mname, blocking, timeout = rng.choice(MODES)
@@ -302,10 +437,12 @@ def structured_case(rng, chk=None):
         call = "wait 0 %d" % rng.choice([1, 2])
     else:
         sc = structured_loop(rng, kind, blocking, buflen, payload)
-        call = call_line(kind, 0, buflen, payload, fam)
+        call = call_line(kind, 0, buflen, payload, fam, want=rng.choice([1, 1, 0]))
         if kind in ("send", "recv") and rng.random() < 0.05:
-            big = 2**32 * rng.choice([1, 2]) + rng.choice([0, 1, buflen])
+            big = rng.choice([2**32 * rng.choice([1, 2]) + rng.choice([0, 1, buflen]), 2**31 - 1, 2**31, 2**32 - 1, 2**31 + buflen])
             call = ("send 0 %s %d" % (payload, big)) if kind == "send" else ("recv 0 %d" % big)
+        elif kind in ("send", "recv", "sendto", "recvfrom") and rng.random() < 0.04:
+            call = odd_argument_call(rng, kind, 0, payload, fam)
     return mk_socket(0, fam, typ, proto, rng.choice([3, 5, 64]), blocking, timeout) + sc + [call]
 
 
@@ -333,6 +470,8 @@ def polls(rng, blocking):
         return []
     last = rng.choice([1, 1, 1, 1, 0])
     extra = {"v": rng.choice([16, 8, 24, 32])} if (last == 1 and rng.random() < 0.3) else {}
+    if last == 1 and not extra and rng.random() < 0.15:
+        extra = {"x": rng.choice([8, 16, 24, 32, 0])}
     return [sysl("poll", "e%d" % E.EINTR)] * rng.choice([0, 0, 0, 1, 3]) + [sysl("poll", last, **extra)]
 
 
@@ -348,6 +487,8 @@ def random_sequence(rng, n, chk=None):
             s = rng.choice(empty)
             fd = sim.nextfd
             sim.nextfd += 1
+            if rng.random() < 0.04:
+                fd = 0
             if rng.random() < 0.75:
                 fam, (typ, proto) = rng.choice([2, 10]), rng.choice([(1, 6), (2, 17), (1, 0), (3, 132)])
                 if rng.random() < 0.05:
@@ -381,9 +522,12 @@ def random_sequence(rng, n, chk=None):
                 sim.blocking[ns] = True
                 sim.closed[ns] = False
             else:
-                ops += sc + [call_line(op, s, buflen, payload, fam)]
+                if op != "connect" and rng.random() < 0.04:
+                    ops += sc + [odd_argument_call(rng, op, s, payload, fam)]
+                else:
+                    ops += sc + [call_line(op, s, buflen, payload, fam, want=rng.choice([1, 1, 0]))]
         elif op == "bind":
-            ops += inject(rng, [sysl("setsockopt", 0), sysl("setsockopt", 0), sysl("bind", 0)]) + ["bind %d %s %d" % (s, rng.choice(ADDRS[fam] + ["null"]), rng.randrange(2))]
+            ops += inject(rng, [sysl("setsockopt", 0), sysl("setsockopt", 0), sysl("bind", 0)]) + ["bind %d %s %d" % (s, rng.choice(ADDRS[fam] + ["null"]), rng.choice([0, 1, 1, 2, -1]))]
         elif op == "listen":
             ops += inject(rng, [sysl("listen", 0)]) + ["listen %d" % s]
         elif op == "close":
@@ -398,15 +542,15 @@ def random_sequence(rng, n, chk=None):
         elif op == "chk":
             ops += inject(rng, [sysl("getsockopt", 0, v=rng.choice([0, 0, E.ECONNREFUSED]))]) + ["chk %d" % s]
         elif op == "setka":
-            ops += inject(rng, [sysl("setsockopt", 0)], 0.25) + ["setka %d %d" % (s, rng.randrange(2))]
+            ops += inject(rng, [sysl("setsockopt", 0)], 0.25) + ["setka %d %d" % (s, rng.choice([0, 0, 1, 1, 2, -1, 256]))]
         elif op == "setblk":
-            b = rng.randrange(2)
+            b = rng.choice([0, 0, 1, 1, 2, -1, 256])
             ops.append("setblk %d %d" % (s, b))
-            sim.blocking[s] = bool(b)
+            sim.blocking[s] = b != 0
         elif op == "setbl":
             ops.append("setbl %d %d" % (s, rng.choice([0, 1, 5, 128, -3])))
         elif op == "setto":
-            ops.append("setto %d %d" % (s, rng.choice([0, 0, 10, 250, -1, -500, 2**31 - 1])))
+            ops.append("setto %d %d" % (s, rng.choice([0, 0, 10, 250, -1, -500, 2**31 - 1, -2**31, 1, 65536])))
         elif op in ("local", "remote"):
             ops += inject(rng, [sysl("getsockname" if op == "local" else "getpeername", 0, sa=rng.choice(ADDRS[fam])), sysl("fromnative", rng.choice([1, 1, 0]))]) + ["%s %d" % (op, s)]
         elif op == "free":
@@ -461,8 +605,8 @@ def view_c09(op, line):
         return line
     f = fields(line)
     iss = f.get("iss", "-").split(",")
-    return "r=%s e=%s d=%s a=%s data=%s polls=%d ns=%s" % (f.get("r"), f.get("e"), f.get("d"), f.get("a"),
-                                                         ",".join(x for x in iss if x.startswith(DATA_CALLS)), sum(x.startswith("poll:") for x in iss), f.get("ns"))
+    return "r=%s e=%s d=%s a=%s data=%s polls=%d ns=%s sw=%s" % (f.get("r"), f.get("e"), f.get("d"), f.get("a"),
+                                                               ",".join(x for x in iss if x.startswith(DATA_CALLS)), sum(x.startswith("poll:") for x in iss), f.get("ns"), f.get("sw"))
 
 
 def view_c10(op, line):
@@ -517,14 +661,20 @@ def scripted_cases(chk, thorough, which):
     for label, ops in eintr_kth_cases(6):
         chk.bump("exh:" + label)
         ex.append(ops)
+    special = []
+    for label, ops in special_cases():
+        chk.bump("dir:" + label)
+        special.append(ops)
     life = list(lifecycle_exhaustive(3 if thorough else 2)) if which == "C10" else []
     nstruct = (40000 if thorough else 8000) if which == "C09" else (10000 if thorough else 2500)
     nseq = (5000 if thorough else 1000) if which == "C09" else (30000 if thorough else 5000)
     structured = [structured_case(rng, chk) for _ in range(nstruct)]
     seqs = [random_sequence(rng, rng.choice([10, 25, 60]), chk) for _ in range(nseq)]
     chk.cov["exhaustive_small_scope"] = {"loop_script_depth": depth, "alphabet_per_data_call": 6, "poll_alphabet": len(POLL_ALPHA),
-                                         "modes": [m[0] for m in MODES], "scripts": len(ex), "lifecycle_sequences": len(life)}
-    return pv.load_corpus(which) + ex + life + structured + seqs
+                                         "modes": [m[0] for m in MODES], "scripts": len(ex), "lifecycle_sequences": len(life),
+                                         "errno_sweep": "every native code 0..133 (+4 beyond the table) at the data call, at the wait and in SO_ERROR, per call kind and mode",
+                                         "directed_argument_cases": len(special)}
+    return pv.load_corpus(which) + special + ex + life + structured + seqs
 
 
 def finish(chk):
